@@ -16,8 +16,27 @@ def kindAttr (j : Option Lean.Json) : R KindAttr :=
   | some (.str "other") => pure .other
   | some v => do pure (.str (← str (← field v "str")))
 
+def op (j : Lean.Json) : R Op := do
+  match (← arr j) with
+  | [.str "log", l] => do pure (.log (← VgiVerif.Engine.Driver.log l))
+  | [.str "emit", b] => do pure (.emit (← VgiVerif.Engine.Driver.batch b))
+  | [.str "finish"] => pure .finish
+  | [.str "raise", e] => do pure (.raise (← VgiVerif.Engine.Driver.exn e))
+  | _ => throw "bad op"
+
+def itemJson : Item → Lean.Json
+  | .log l => VgiVerif.Engine.Driver.evJson (.log l)
+  | .data b => VgiVerif.Engine.Driver.evJson (.data b)
+  | .err e => VgiVerif.Engine.Driver.evJson (errEv e)
+  | .token p => ofList [Json.str "token", ofNat p]
+
 def handle (fn : String) (a : Lean.Json) : R Lean.Json := do
   match fn with
+  | "opstep" =>
+    -- one process() call given as an ordered op list: what the server writes, whether the call failed
+    let ops ← (← arrF a "ops").mapM op
+    let (items, failed) := stepWrites (← boolF a "producer") ops
+    pure (obj [("items", ofList (items.map itemJson)), ("failed", ofBool failed)])
   | "roundtrip" =>
     -- the exception as from_exception sees it: class name, str(exc), getattr(exc, "error_kind", None)
     let e : PyExn := ⟨← strF a "cls", ← strF a "text", ← kindAttr (fieldOpt a "kind")⟩
